@@ -8,8 +8,8 @@ correspond: the REAL `JournalFileSymlinkLock` / `JournalFileOpenLock` objects (o
             in lock-step: the names `os` and `time` inside `_file.py` are rebound to proxies whose every call
             (symlink, open, close, stat, rename, unlink, monotonic, sleep) blocks until the controller grants that
             worker ONE step; the clock is virtual (moves only by `tick` events), mtimes are virtual clock readings
-            (a regular lock file: the clock at its creation; a symlink: the journal's, because os.stat follows
-            it); a crashed worker is never granted again (kill -9: no finally).  The controller draws a seeded
+            (os.stat of a regular lock file / os.lstat of the lock path: the clock at its creation; os.stat of a symlink
+            lock would give the journal's, which is what the symlink class watched before repo fb3aa05); a crashed worker is never granted again (kill -9: no finally).  The controller draws a seeded
             schedule (worker | tick | crash), logs for every event the call, its outcome, the lock file (creator,
             stamp), the renamed-away files, the live holders; the compiled Lean model replays the same schedule
             and every one of these must be equal.  The named schedules of the Lean witnesses (F13 ...) are
@@ -234,6 +234,25 @@ class OsProxy:
 
         return w.st.call("stat", do)
 
+    def lstat(self, p: Any, *a: Any, **k: Any) -> Any:
+        """the link's / file's own mtime = the clock at the creation of the lock file (repo fb3aa05: the symlink lock)"""
+        w = self._w
+
+        def do() -> Any:
+            if not self._is_lock(p):
+                return _os.lstat(p, *a, **k)
+            r = _os.lstat(p)
+            m: Any = w.cur["stamp"] if w.cur else -1
+            me = w.st.me()
+            w.last_stat[me] = w.cur["serial"] if w.cur else None
+            if w.real_mtime:
+                m = r.st_mtime
+            if me not in w.seen or w.seen[me][0] != m:
+                w.seen[me] = (m, w.now)
+            return r if w.real_mtime else FakeStat(r, float(m))
+
+        return w.st.call("lstat", do)
+
     def rename(self, src: Any, dst: Any, *a: Any, **k: Any) -> Any:
         w = self._w
 
@@ -294,7 +313,7 @@ def canon_obs(o: Any) -> dict[str, Any]:
     d: dict[str, Any] = {"call": name, "res": res}
     if res == "ok" and name in ("monotonic", "rename"):
         d["val"] = int(val)
-    if res == "ok" and name == "stat":
+    if res == "ok" and name in ("stat", "lstat"):
         d["val"] = int(val.st_mtime) if isinstance(val, FakeStat) else None
     return d
 
@@ -402,6 +421,8 @@ def run_real(kind: str, grace: int | None, n: int, rounds: list[int], tmp: str, 
                 out_events.append(ev)
                 if ev[0] == "t":
                     w.now += 1
+                    if real_mtime:
+                        _time.sleep(0.02)  # a tick is real time here: lock files created in different ticks get different kernel timestamps
                     obs = {"call": "tick", "res": ""}
                 elif ev[0] == "c":
                     i = ev[1]
@@ -445,11 +466,10 @@ def excusable(kind: str, grace: int | None, t: dict[str, Any]) -> str | None:
         return None
     if t["changed_hands"]:
         return "F13" if t["after_crash"] else "stalled-waiter"
-    if kind == "open":
-        return "slow-holder" if t["age"] > grace else "equal-mtime"
-    # symlink lock: os.stat follows the link; the lock was held at each poll of the taker and the journal's mtime did not
-    # change for longer than the grace period (one slow holder, or several that had not written yet; F13 without overlap)
-    return "symlink-journal-idle-while-held"
+    # both classes watch the lock file's own stamp (repo fb3aa05): a lock file that is still the one the taker looked at
+    # may only be broken when it is older than the grace period (a holder that keeps the lock that long loses it by design;
+    # lock files with equal stamps have equal ages, so timestamp granularity cannot excuse anything else)
+    return "slow-holder" if t["age"] > grace else None
 
 
 def oracle(real: dict[str, Any]) -> dict[str, Any] | None:
@@ -457,7 +477,7 @@ def oracle(real: dict[str, Any]) -> dict[str, Any] | None:
     kind, grace = real["kind"], real["grace"]
     for t in real["takeovers"]:
         if excusable(kind, grace, t) is None:
-            return {"kind": "premature-takeover", "why": "worker %d broke the lock file of live worker %d (age %d) after watching an unchanged mtime for only %d (grace %s)" % (t["by"], t["owner"], t["age"], t["watched"], grace)}
+            return {"kind": "premature-takeover", "why": "worker %d broke the lock file of live worker %d (age %d, the one it had just looked at) after watching an unchanged mtime for %d (grace %s)" % (t["by"], t["owner"], t["age"], t["watched"], grace)}
     if real["takeovers"]:
         return None  # the hypothesis of mutual exclusion does not hold for this schedule
     for k, s in enumerate(real["steps"]):
@@ -473,7 +493,7 @@ def oracle(real: dict[str, Any]) -> dict[str, Any] | None:
     return None
 
 
-FIELDS = ("call", "res", "val", "lock", "tmps", "holders", "now", "tgt")
+FIELDS = ("call", "res", "val", "lock", "tmps", "holders", "now")
 
 
 def first_diff(real: dict[str, Any], model: dict[str, Any]) -> dict[str, Any] | None:
@@ -551,9 +571,9 @@ def compare_batch(chk: core.Check, reals: list[dict[str, Any]], label: str) -> N
             chk.count("lock:schedule-violates-safeSched")
         if model.get("punctual") is True:
             chk.count("lock:schedule-punctual(%s)" % real["kind"])
-            if real["kind"] == "open" and real["takeovers"]:
+            if real["takeovers"]:
                 # theorem punctual_schedule_safe: impossible in the model; the step-by-step comparison above would already differ
-                chk.broke("correspondence", {"lock-model": "punctual open-lock schedule, yet the real run took over a live creator's lock", "case": {"events": real["events"], "grace": real["grace"], "n": real["n"]}})
+                chk.broke("correspondence", {"lock-model": "punctual schedule, yet the real run took over a live creator's lock", "case": {"events": real["events"], "grace": real["grace"], "n": real["n"]}})
         if any(len(s["holders"]) > 1 for s in real["steps"]):
             chk.count("lock:two-live-holders-seen(with live takeover before)" if real["takeovers"] else "lock:two-live-holders-seen")
         witness = {"part": "lock", "lock": real["kind"], "grace": real["grace"], "n": real["n"], "rounds": real.get("rounds"), "events": real["events"], "seed": real.get("seed")}
@@ -565,7 +585,7 @@ def compare_batch(chk: core.Check, reals: list[dict[str, Any]], label: str) -> N
             # findings (known_findings.json matches on `class`); a holder that simply keeps the lock longer than the grace
             # period loses it by design (documented meaning of grace_period) and is not reported.
             classes = [excusable(real["kind"], real["grace"], t) for t in real["takeovers"]]
-            cls = next((c for c in ("F13", "stalled-waiter", "symlink-journal-idle-while-held") if c in classes), None)
+            cls = next((c for c in ("F13", "stalled-waiter") if c in classes), None)
             if cls is not None:
                 k = next(k for k, s in enumerate(real["steps"]) if len(s["holders"]) > 1)
                 chk.violation({"part": "lock", "lock": real["kind"], "kind": "two-holders-after-takeover", "class": cls}, witness,
@@ -668,6 +688,13 @@ def directed(chk: core.Check) -> None:
             real = run_real(kind, g, 3, [2, 2, 2], chk.tmp, "dir_%s_%d" % (kind, g), chooser=Directed(prog), max_events=200)
             real["profile"] = "directed:retake-after-takeover"
             reals.append(real)
+            # the situation repaired by repo fb3aa05: the lock changes hands between two polls of a waiter while the journal is
+            # not modified; the waiter must notice (new lock stamp) and not break the young lock of the new live holder
+            prog = [("until_holder", 0), ("until_pending", 0, "rename"), ("until_pending", 1, "sleep"), ("ticks", 1),
+                    ("until_pending", 0, "monotonic", "unlink"), ("until_holder", 2), ("ticks", g), ("steps_or_holder", 1, 14)]
+            real = run_real(kind, g, 3, [2, 2, 2], chk.tmp, "dirh_%s_%d" % (kind, g), chooser=Directed(prog), max_events=200)
+            real["profile"] = "directed:handover-between-polls"
+            reals.append(real)
     compare_batch(chk, reals, "-directed")
 
 
@@ -691,10 +718,10 @@ def correspond(chk: core.Check, tier: str) -> None:
     chk.extra["lock_tie_wall_s"] = round(_time.time() - t0, 2)
     chk.assumptions += [
         "lock tie: rename / symlink / open(O_CREAT|O_EXCL) are atomic and uuid4 names do not collide (kernel / library semantics, trusted)",
-        "lock tie: mtimes are readings of the virtual clock (regular lock file: clock at creation; symlink lock: the journal's, because os.stat follows the link); "
+        "lock tie: mtimes are readings of the virtual clock (os.stat of a regular lock file / os.lstat of the lock path: clock at its creation; os.stat of a symlink would give the journal's: kept only to judge a regression); "
         "asynchronous exceptions inside acquire() are not explored",
-        "mutual exclusion is claimed under safeSched (no takeover removes the lock file of a live creator); schedules violating it (F13, stalled waiter, "
-        "journal unmodified for longer than the grace period while the symlink lock is seen held) are replayed and must agree with the model, they are counted, not alarmed",
+        "mutual exclusion is claimed under safeSched (no takeover removes the lock file of a live creator); schedules violating it (F13 = overlapping takeovers after a holder's death, "
+        "stalled waiter, a holder slower than the grace period) are replayed and must agree with the model; two holders after F13 / stalled waiter are raised as the recorded findings",
     ]
 
 
